@@ -83,6 +83,25 @@ func TestWorker(t *testing.T) {
 		return
 	}
 	keys := map[uint64]struct{}{}
+	skeys := map[uint64]struct{}{} // distinct schedule signatures (all runs)
+	var pending, spending []byte
+	flushKeys := func() {
+		for _, f := range []struct {
+			path string
+			buf  *[]byte
+		}{{job.KeysOut, &pending}, {job.KeysOut + ".sched", &spending}} {
+			if job.KeysOut == "" || len(*f.buf) == 0 {
+				continue
+			}
+			fh, err := os.OpenFile(f.path, os.O_APPEND|os.O_CREATE|os.O_WRONLY, 0o644)
+			if err != nil {
+				panic(err)
+			}
+			fh.Write(*f.buf)
+			fh.Close()
+			*f.buf = (*f.buf)[:0]
+		}
+	}
 	collected := map[string]bool{}
 	crashProne := false
 	if cp, ok := prop.(interface{ CrashProne() bool }); ok {
@@ -147,6 +166,7 @@ func TestWorker(t *testing.T) {
 			// crash are still accounted for
 			res.NextRun = run
 			writeJSON(job.Out+".ckpt", res)
+			flushKeys()
 		}
 		t0 := time.Now()
 		runStarted.Store(t0.UnixNano())
@@ -183,10 +203,23 @@ func TestWorker(t *testing.T) {
 		if vd.NonTrivial {
 			res.Stats.NonTrivial++
 			if len(keys) < maxKeysPerWorker {
-				keys[mix(mix(hashBytes(caseJSON(c)), x.SchedSig), 0)] = struct{}{}
+				k := mix(mix(hashBytes(caseJSON(c)), x.SchedSig), 0)
+				if _, dup := keys[k]; !dup {
+					keys[k] = struct{}{}
+					pending = binary.LittleEndian.AppendUint64(pending, k)
+				}
 			} else {
 				res.Stats.Extra["distinct_keys_capped_lower_bound"] = 1
 			}
+		}
+		if len(skeys) < maxKeysPerWorker {
+			if _, dup := skeys[x.SchedSig]; !dup {
+				skeys[x.SchedSig] = struct{}{}
+				spending = binary.LittleEndian.AppendUint64(spending, x.SchedSig)
+			}
+		}
+		if len(pending)+len(spending) > 8*512 {
+			flushKeys()
 		}
 		if len(res.Samples) < 3 && vd.Sample != nil && (vd.NonTrivial || run > 40*job.Workers) {
 			res.Samples = append(res.Samples, vd.Sample)
@@ -206,19 +239,7 @@ func TestWorker(t *testing.T) {
 	}
 	res.NextRun = run
 	res.WallS = time.Since(start).Seconds()
-	if job.KeysOut != "" {
-		kb := make([]byte, 0, 8*len(keys))
-		for k := range keys {
-			kb = binary.LittleEndian.AppendUint64(kb, k)
-		}
-		// append: a respawned worker adds to the same file
-		f, err := os.OpenFile(job.KeysOut, os.O_APPEND|os.O_CREATE|os.O_WRONLY, 0o644)
-		if err != nil {
-			panic(err)
-		}
-		f.Write(kb)
-		f.Close()
-	}
+	flushKeys()
 }
 
 // maxKeysPerWorker bounds the memory of the distinctness measure; beyond it
